@@ -112,6 +112,9 @@ func runC12(s *core.Sim, tier string) RunInfo {
 				h = top + 1
 			}
 		}
+		if i > 0 && s.Tape.Coin("same-target", 1, 2) {
+			h = readers[0].h // several waiters on one height
+		}
 		ctx, cancel := context.WithTimeout(context.Background(), time.Hour)
 		readers[i] = &c12reader{id: i, h: h, ctx: ctx, cancel: cancel}
 		hist = append(hist, fmt.Sprintf("reader%d wants %d", i, h))
